@@ -129,8 +129,37 @@ def cases(rng, big):
     yield "relabel:logits:multiclass_accuracy", lambda: same(val(lambda: F.multiclass_accuracy(scd, tg, num_classes=C)), val(lambda: F.multiclass_accuracy(scd[:, inv], pt[tg], num_classes=C)))
 
 
+def huge_cases(rng):
+    """duplication at sizes where count products exceed 2^31 (narrow integer accumulators)"""
+    import torcheval.metrics.functional as F
+    n = rng.choice([70000, 90000])
+    C = 2
+    sc = torch.rand((n, C), generator=torch.Generator().manual_seed(rng.randrange(10 ** 9)))
+    tg = torch.tensor([i % C for i in range(n)])
+
+    def dup(z):
+        return torch.cat([z, z])
+    yield "duplicate-huge:multiclass_auroc", lambda: same(val(lambda: F.multiclass_auroc(sc, tg, num_classes=C, average=None)),
+                                                           val(lambda: F.multiclass_auroc(dup(sc), dup(tg), num_classes=C, average=None)), 2 ** -12)
+    s1 = sc[:, 0].double()
+    y1 = tg
+    yield "duplicate-huge:binary_auroc", lambda: same(val(lambda: F.binary_auroc(s1, y1)), val(lambda: F.binary_auroc(dup(s1), dup(y1))), 2 ** -12)
+    yield "duplicate-huge:binary_auprc", lambda: same(val(lambda: F.binary_auprc(s1, y1)), val(lambda: F.binary_auprc(dup(s1), dup(y1))), 2 ** -12)
+
+
 def _job(arg):
     seeds, big = arg
+    if big == "huge":
+        out = []
+        for seed in seeds:
+            rng = random.Random(seed)
+            for name, thunk in huge_cases(rng):
+                try:
+                    d = thunk()
+                except Exception as ex:
+                    d = f"harness exception {type(ex).__name__}: {ex}"
+                out.append((name, seed, d))
+        return out
     out = []
     for seed in seeds:
         rng = random.Random(seed)
@@ -147,7 +176,7 @@ def run(ctx):
     s = ctx.stream("metamorphic pairs (implementation only)")
     seeds = [ctx.rng.randrange(10 ** 9) for _ in range(ctx.n(60, 600))]
     bigs = [ctx.rng.randrange(10 ** 9) for _ in range(ctx.n(2, 40))]
-    jobs = [(seeds[i::10], False) for i in range(10)] + [(bigs[i::2], True) for i in range(2)]
+    jobs = [(seeds[i::10], False) for i in range(10)] + [(bigs[i::2], True) for i in range(2)] + [([ctx.rng.randrange(10 ** 9)], "huge")]
     res = sandbox.run_jobs(_job, jobs, timeout=ctx.n(170, 1500), workers=12)
     bad = {}
     for (ch, big), (status, val_) in zip(jobs, res):
